@@ -29,6 +29,7 @@ type Step struct {
 	Part   int    `json:"part,omitempty"`  // append / moveleader
 	Pick   int    `json:"pick,omitempty"`  // commit: which of the member's fetched-but-uncommitted messages (index from the oldest, modulo)
 	UpTo   bool   `json:"up_to,omitempty"` // commit: pass every fetched message up to the picked one (in order) instead of only the picked one
+	Mix    bool   `json:"mix,omitempty"`   // commit with UpTo: pass the messages with the topics alternating (A,B,A,B...) as far as possible
 }
 
 // Fault applies to the n-th request of an API (0-based, counted per API).
@@ -263,6 +264,7 @@ func Run(c Case) *Result {
 		record(AppEvent{Member: m.idx, Kind: kind, Topic: msg.Topic, Partition: msg.Partition, Offset: msg.Offset, Value: string(msg.Value), CallID: callID, SeqBefore: before})
 		return true
 	}
+	mixNext := false
 	commit := func(m *member, pick int, upTo bool) {
 		if len(m.fetched) == 0 {
 			return
@@ -275,6 +277,27 @@ func Run(c Case) *Result {
 		} else {
 			msgs = []kafka.Message{m.fetched[k]}
 			m.fetched = append(append([]kafka.Message{}, m.fetched[:k]...), m.fetched[k+1:]...)
+		}
+		if mixNext && len(msgs) > 2 {
+			// the same messages, topics alternating (the order inside one topic-partition is kept)
+			byTopic := map[string][]kafka.Message{}
+			var names []string
+			for _, msg := range msgs {
+				if _, ok := byTopic[msg.Topic]; !ok {
+					names = append(names, msg.Topic)
+				}
+				byTopic[msg.Topic] = append(byTopic[msg.Topic], msg)
+			}
+			var mixed []kafka.Message
+			for len(mixed) < len(msgs) {
+				for _, n := range names {
+					if q := byTopic[n]; len(q) > 0 {
+						mixed = append(mixed, q[0])
+						byTopic[n] = q[1:]
+					}
+				}
+			}
+			msgs = mixed
 		}
 		callID++
 		id := callID
@@ -347,7 +370,9 @@ func Run(c Case) *Result {
 			}
 		case "commit":
 			if alive {
+				mixNext = s.Mix
 				commit(m, s.Pick, s.UpTo)
+				mixNext = false
 			}
 		case "commitclose":
 			// CommitMessages is in progress (possibly in its retry back-off) when the reader is closed
